@@ -723,6 +723,16 @@ type simConn struct {
 	c   *sim.RunCtx
 	// compressors announced by GetCapabilities (the client negotiates zstd from it)
 	compressors []remoteexecution.Compressor_Value
+	// handlers, if set, counts the streaming server handlers currently running
+	handlers *int
+}
+
+func (n *simConn) handlerStarted() func() {
+	if n.handlers == nil {
+		return func() {}
+	}
+	*n.handlers++
+	return func() { *n.handlers-- }
 }
 
 func (n *simConn) Invoke(ctx context.Context, method string, args, reply any, opts ...grpc.CallOption) error {
@@ -852,11 +862,13 @@ func (n *simConn) NewStream(ctx context.Context, desc *grpc.StreamDesc, method s
 	switch method {
 	case "/google.bytestream.ByteStream/Write":
 		n.s.Go("srv.Write", func() {
+			defer n.handlerStarted()()
 			err := n.bs.Write(&simSrvWrite{srvStreamBase{ctx}, cs})
 			cs.srvErr, cs.srvDone = err, true
 		})
 	case "/google.bytestream.ByteStream/Read":
 		n.s.Go("srv.Read", func() {
+			defer n.handlerStarted()()
 			// server-streaming: the request is the first (only) client message
 			n.s.WaitUntil("srv.Read.request", func() bool { return len(cs.toSrv) > 0 || ctx.Err() != nil })
 			if len(cs.toSrv) == 0 {
